@@ -336,19 +336,37 @@ fn vb(b: &[u8]) -> Value { json!({"b": hex(b)}) }
 fn vc(tag: u32, args: Vec<Value>) -> Value { json!({"c": tag, "a": args}) }
 fn vs(s: &str) -> Value { vb(s.as_bytes()) }
 
-fn s3(r: &mut Rng) -> String { r.pick(&["", "a", "b", "A"]).to_string() }
-fn b3(r: &mut Rng) -> Vec<u8> { match r.below(3) { 0 => vec![], 1 => vec![0], _ => vec![0, 255] } }
-fn hdrs(r: &mut Rng) -> Vec<HttpHeader> { (0..r.below(3)).map(|_| HttpHeader { name: s3(r), value: s3(r) }).collect() }
+/// Draws recorded on a tape, so that a second value can be generated from the same draws with exactly
+/// one of them changed: a pair that differs in ONE choice (one field, one variant, one list length).
+pub struct Tape { draws: Vec<u64>, pos: usize, mutate_at: Option<(usize, u64)>, rng: Rng }
+impl Tape {
+    fn new(rng: Rng) -> Self { Tape { draws: vec![], pos: 0, mutate_at: None, rng } }
+    fn below(&mut self, n: u64) -> u64 {
+        if n == 0 { return 0; }
+        let raw = if self.pos < self.draws.len() { self.draws[self.pos] } else { let v = self.rng.next(); self.draws.push(v); v };
+        let v = match self.mutate_at { Some((at, delta)) if at == self.pos && n > 1 => (raw % n + 1 + delta % (n - 1)) % n, _ => raw % n };
+        self.pos += 1;
+        v
+    }
+    fn coin(&mut self, num: u64, den: u64) -> bool { self.below(den) < num }
+    fn pick<'a, T>(&mut self, xs: &'a [T]) -> &'a T { &xs[self.below(xs.len() as u64) as usize] }
+    /// rewind; the `at`-th draw will come out different
+    fn mutated(&mut self, at: usize, delta: u64) { self.pos = 0; self.mutate_at = Some((at, delta)); }
+}
+
+fn s3(r: &mut Tape) -> String { r.pick(&["", "a", "b", "A"]).to_string() }
+fn b3(r: &mut Tape) -> Vec<u8> { match r.below(3) { 0 => vec![], 1 => vec![0], _ => vec![0, 255] } }
+fn hdrs(r: &mut Tape) -> Vec<HttpHeader> { (0..r.below(3)).map(|_| HttpHeader { name: s3(r), value: s3(r) }).collect() }
 fn hdrs_val(h: &[HttpHeader]) -> Value { vc(255, h.iter().map(|x| vc(0, vec![vs(&x.name), vs(&x.value)])).collect()) }
-fn gen_http_request(r: &mut Rng) -> (HttpRequest, Value) {
+fn gen_http_request(r: &mut Tape) -> (HttpRequest, Value) {
     let q = HttpRequest { method: r.pick(&["GET", "POST"]).to_string(), url: s3(r), headers: hdrs(r), body: b3(r) };
     let v = vc(1, vec![vs(&q.method), vs(&q.url), hdrs_val(&q.headers), vb(&q.body)]); (q, v)
 }
-fn gen_http_response(r: &mut Rng) -> (HttpResponse, Value) {
+fn gen_http_response(r: &mut Tape) -> (HttpResponse, Value) {
     let q = HttpResponse { status: *r.pick(&[200u16, 404, 0]), headers: hdrs(r), body: b3(r) };
     let v = vc(2, vec![vn(q.status as u128), hdrs_val(&q.headers), vb(&q.body)]); (q, v)
 }
-fn gen_http_error(r: &mut Rng) -> (HttpError, Value) {
+fn gen_http_error(r: &mut Tape) -> (HttpError, Value) {
     match r.below(5) {
         0 => { let code = *r.pick(&[crux_http::http::StatusCode::BadRequest, crux_http::http::StatusCode::InternalServerError]); let m = s3(r); let b = if r.coin(1, 2) { Some(b3(r)) } else { None };
                let v = vc(10, vec![vn(u16::from(code) as u128), vs(&m), match &b { Some(x) => vc(1, vec![vb(x)]), None => vc(0, vec![]) }]); (HttpError::Http { code, message: m, body: b }, v) }
@@ -358,10 +376,10 @@ fn gen_http_error(r: &mut Rng) -> (HttpError, Value) {
         _ => (HttpError::Timeout, vc(14, vec![])),
     }
 }
-fn gen_http_result(r: &mut Rng) -> (HttpResult, Value) {
+fn gen_http_result(r: &mut Tape) -> (HttpResult, Value) {
     if r.coin(1, 2) { let (x, v) = gen_http_response(r); (HttpResult::Ok(x), vc(20, vec![v])) } else { let (x, v) = gen_http_error(r); (HttpResult::Err(x), vc(21, vec![v])) }
 }
-fn gen_kv_op(r: &mut Rng) -> (KeyValueOperation, Value) {
+fn gen_kv_op(r: &mut Tape) -> (KeyValueOperation, Value) {
     match r.below(5) {
         0 => { let k = s3(r); let v = vc(30, vec![vs(&k)]); (KeyValueOperation::Get { key: k }, v) }
         1 => { let k = s3(r); let b = b3(r); let v = vc(31, vec![vs(&k), vb(&b)]); (KeyValueOperation::Set { key: k, value: b }, v) }
@@ -370,8 +388,8 @@ fn gen_kv_op(r: &mut Rng) -> (KeyValueOperation, Value) {
         _ => { let k = s3(r); let c = r.below(2); let v = vc(34, vec![vs(&k), vn(c as u128)]); (KeyValueOperation::ListKeys { prefix: k, cursor: c }, v) }
     }
 }
-fn gen_kv_value(r: &mut Rng) -> (KvValue, Value) { if r.coin(1, 3) { (KvValue::None, vc(40, vec![])) } else { let b = b3(r); let v = vc(41, vec![vb(&b)]); (KvValue::Bytes(b), v) } }
-fn gen_kv_result(r: &mut Rng) -> (KeyValueResult, Value) {
+fn gen_kv_value(r: &mut Tape) -> (KvValue, Value) { if r.coin(1, 3) { (KvValue::None, vc(40, vec![])) } else { let b = b3(r); let v = vc(41, vec![vb(&b)]); (KvValue::Bytes(b), v) } }
+fn gen_kv_result(r: &mut Tape) -> (KeyValueResult, Value) {
     match r.below(8) {
         0 => { let (x, v) = gen_kv_value(r); (KeyValueResult::Ok { response: KeyValueResponse::Get { value: x } }, vc(50, vec![vc(0, vec![v])])) }
         1 => { let (x, v) = gen_kv_value(r); (KeyValueResult::Ok { response: KeyValueResponse::Set { previous: x } }, vc(50, vec![vc(1, vec![v])])) }
@@ -382,7 +400,7 @@ fn gen_kv_result(r: &mut Rng) -> (KeyValueResult, Value) {
         _ => { let (e, v) = gen_kv_error(r); (KeyValueResult::Err { error: e }, vc(51, vec![v])) }
     }
 }
-fn gen_time_request(r: &mut Rng) -> (TimeRequest, Value) {
+fn gen_time_request(r: &mut Tape) -> (TimeRequest, Value) {
     match r.below(4) {
         0 => (TimeRequest::Now, vc(60, vec![])),
         1 => { let (id, s, n) = (r.below(2), r.below(2), r.below(2) as u32); (TimeRequest::NotifyAt { id: TimerId(id as usize), instant: crux_time::Instant::new(s, n) }, vc(61, vec![vn(id as u128), vn(s as u128), vn(n as u128)])) }
@@ -390,7 +408,7 @@ fn gen_time_request(r: &mut Rng) -> (TimeRequest, Value) {
         _ => { let id = r.below(2); (TimeRequest::Clear { id: TimerId(id as usize) }, vc(63, vec![vn(id as u128)])) }
     }
 }
-fn gen_time_response(r: &mut Rng) -> (TimeResponse, Value) {
+fn gen_time_response(r: &mut Tape) -> (TimeResponse, Value) {
     match r.below(4) {
         0 => { let (s, n) = (r.below(2), r.below(2) as u32); (TimeResponse::Now { instant: crux_time::Instant::new(s, n) }, vc(70, vec![vn(s as u128), vn(n as u128)])) }
         1 => { let id = r.below(2); (TimeResponse::InstantArrived { id: TimerId(id as usize) }, vc(71, vec![vn(id as u128)])) }
@@ -400,12 +418,17 @@ fn gen_time_response(r: &mut Rng) -> (TimeResponse, Value) {
 }
 macro_rules! eq_pair {
     ($r:expr, $gen:ident, $ty:expr) => {{
-        let (a, va) = $gen($r);
-        let (b, vb_) = if $r.coin(1, 3) { (a.clone(), va.clone()) } else { $gen($r) };
+        let mut t = Tape::new(Rng($r.next()));
+        let (a, va) = $gen(&mut t);
+        let (b, vb_) = match $r.below(3) {
+            0 => (a.clone(), va.clone()),
+            1 => { let n = t.draws.len().max(1); t.mutated($r.below(n as u64) as usize, $r.next()); $gen(&mut t) }
+            _ => { let mut t2 = Tape::new(Rng($r.next())); $gen(&mut t2) }
+        };
         json!({"kind": "eq_val", "ty": $ty, "a": va, "b": vb_, "ab": a == b, "ba": b == a})
     }};
 }
-fn gen_kv_error(r: &mut Rng) -> (KeyValueError, Value) {
+fn gen_kv_error(r: &mut Tape) -> (KeyValueError, Value) {
     match r.below(4) {
         0 => { let m = s3(r); let v = vc(80, vec![vs(&m)]); (KeyValueError::Io { message: m }, v) }
         1 => (KeyValueError::Timeout, vc(81, vec![])),
